@@ -1,4 +1,6 @@
 import EncodingRs.Lemmas.OneShot
+import EncodingRs.Lemmas.OneShotCap
+import EncodingRs.Lemmas.OneShotEnc
 /-!
 # C11 — the one-shot convenience API equals the streaming API and borrows only when promised
 
@@ -790,32 +792,544 @@ example : decodeWithBomRemoval .utf8 [0xFF, 0xFE, 0x41] 8 [] = some ⟨[0xFFFD, 
   decide +kernel
 example : decodeWithBomRemoval .utf16Be [0xFE, 0xFF, 0x00, 0x41] 8 [] = some ⟨[0x41], false, false⟩ := by decide +kernel
 
-/- PENDING: `oneshot_no_unreachable` at full strength —
+/-! ### (e) the capacity arithmetic executed as written: `oneshot_no_unreachable`, termination for
+every admissible stop policy (`Model.OneShot.…Cap`, `Lemmas/OneShotCap.lean`)
 
-     theorem oneshot_no_unreachable (v : Gen.Variant) (bytes : List Nat) (budget : Budget) (cap : Nat)
-         (hcap : cap = max_utf8_buffer_length_without_replacement v (bytes.length - n))   -- n = validated prefix
-         (hadm : Admissible (famOfVariant v) .utf8 cap (call (famOfVariant v) .utf8 (famOfVariant v).init (bytes.drop n) true budget)) :
-         decodeWithoutBomHandlingAndWithoutReplacement v bytes budget ≠ .unreachable
+`Gen.MaxLen.usizeMax = 2^64 - 1`.  `slack` is what the allocator grants beyond the capacity asked
+for (`with_capacity` / `reserve` promise "at least"); every statement holds for every slack. -/
 
-   needs C07 (a call whose capacity is the worst-case query answer never returns `OutputFull`); the
-   worst-case formulas have no Lean model yet.  Proved instead: `no_unreachable_partial` (policy
-   "never stop") and `without_replacement_none_iff` for every policy under which the function returns.
-   On the implementation the arm is exercised by the harness on every generated input (a panic is an
-   oracle failure and a model disagreement).
+open EncodingRs.Lemmas.OneShotCap EncodingRs.Lemmas.MaxLenVariant EncodingRs.Gen.MaxLen
 
-   PENDING: termination of the two loops of `decode_without_bom_handling` for EVERY admissible stop policy —
+theorem oneShot_validUpTo_le (v : Gen.Variant) (bytes : List Nat) : OneShot.validUpTo v bytes ≤ bytes.length := by
+  by_cases h8 : v = .utf8
+  · subst h8
+    simp only [OneShot.validUpTo, if_true]
+    exact EncodingRs.Lemmas.Valid.validUpTo_le bytes
+  · rw [validUpTo_eq_upTo v h8]
+    exact EncodingRs.Thm.C19.upTo_le _ _
 
-     theorem decode_without_bom_handling_terminates_any (v : Gen.Variant) (bytes : List Nat) (bs : List (List Budget))
-         (hadm : every inner call admissible for the capacity in force; capacity ≥ 4 after the first reserve) :
-         ∃ fuel, decodeWithoutBomHandling v bytes fuel bs ≠ none
+/-- **`oneshot_no_unreachable`** (full strength).  In
+`decode_without_bom_handling_and_without_replacement` the arm `DecoderResult::OutputFull => unreachable!()`
+is never taken: for each of the 40 encodings, every input, every slack of the allocator and EVERY stop
+policy of the single `decode_to_string_without_replacement` call that is admissible for the spare
+capacity the code computed (`valid_up_to + max_utf8_buffer_length_without_replacement(len - valid_up_to)`
+by `checked_add`, minus the copied prefix).  By C07 (`variant_raw_sufficient`) for the fresh decoder's
+state (`Reach.init`). -/
+theorem oneshot_no_unreachable (v : Gen.Variant) (bytes : List Nat) (slack : Nat) (budget : Budget)
+    (hb : ∀ b ∈ bytes, b < 256) (hadm : NoReplAdmissible v bytes slack budget) :
+    decodeWithoutBomHandlingAndWithoutReplacementCap v bytes budget ≠ .ok .unreachable := by
+  intro h
+  unfold decodeWithoutBomHandlingAndWithoutReplacementCap at h
+  by_cases h8 : v = .utf8
+  · simp only [h8, if_true] at h
+    split at h <;> cases h
+  · simp only [h8, if_false] at h
+    by_cases hbo : isPotentiallyBorrowable v = true
+    · simp only [hbo, if_true] at h
+      by_cases hn : validUpToNoRepl v bytes = bytes.length
+      · simp only [hn, if_true] at h; cases h
+      · simp only [hn, if_false] at h
+        cases hc : noReplCapacity v bytes with
+        | none => rw [hc] at h; cases h
+        | some c =>
+          rw [hc] at h
+          simp only at h
+          have hnf := noRepl_call_not_full v bytes slack budget c hb hc hadm
+          have hin : noReplInput v bytes = bytes.drop (validUpToNoRepl v bytes) := by simp [noReplInput, hbo]
+          rw [hin] at hnf
+          split at h
+          · cases h
+          · cases h
+          · rename_i hfull; exact hnf hfull
+    · simp only [hbo, Bool.false_eq_true, if_false] at h
+      cases hc : noReplCapacity v bytes with
+      | none => rw [hc] at h; cases h
+      | some c =>
+        rw [hc] at h
+        simp only at h
+        have hnf := noRepl_call_not_full v bytes slack budget c hb hc hadm
+        have hin : noReplInput v bytes = bytes := by simp [noReplInput, hbo]
+        rw [hin] at hnf
+        split at h
+        · cases h
+        · cases h
+        · rename_i hfull; exact hnf hfull
 
-   needs the capacities (C07 formulas) in the model plus C08 `outputFull_progress`.  Proved instead:
-   `decode_without_bom_handling_terminates` / `decode_terminates` / `decode_with_bom_removal_terminates`
-   (the never-stop policy, with the fuel `10 * len + 16` the driver uses, via a rank bound for all 13
-   families and `replLoop_terminates`) and `decode_without_bom_handling_total`; for every other policy the
-   theorems above are partial-correctness statements ("whenever the model returns").
+/-- the precondition on the length: the `.unwrap()` of the capacity panics only if
+`3 * len + 13 > usize::MAX` (`len > 6148914691236517200`) -/
+theorem without_replacement_panic_length (v : Gen.Variant) (bytes : List Nat) (budget : Budget)
+    (h : decodeWithoutBomHandlingAndWithoutReplacementCap v bytes budget = .panic) :
+    usizeMax < 3 * bytes.length + 13 := by
+  apply Nat.lt_of_not_le
+  intro hlen
+  have hle : validUpToNoRepl v bytes ≤ bytes.length := by
+    by_cases h8 : v = .utf8
+    · subst h8
+      show (if Gen.Variant.utf8 = .iso2022Jp then _ else asciiValidUpTo bytes) ≤ _
+      simp only [reduceCtorEq, if_false]
+      rw [EncodingRs.Thm.C19.asciiValidUpTo_eq]; exact EncodingRs.Thm.C19.upTo_le _ _
+    · rw [validUpToNoRepl_eq v h8]; exact oneShot_validUpTo_le v bytes
+  obtain ⟨c, hc⟩ := noReplCapacity_some v bytes hlen hle
+  unfold decodeWithoutBomHandlingAndWithoutReplacementCap at h
+  rw [hc] at h
+  simp only at h
+  by_cases h8 : v = .utf8
+  · simp only [h8, if_true] at h
+    split at h <;> cases h
+  · simp only [h8, if_false] at h
+    by_cases hbo : isPotentiallyBorrowable v = true
+    · simp only [hbo, if_true] at h
+      by_cases hn : validUpToNoRepl v bytes = bytes.length
+      · simp only [hn, if_true] at h; cases h
+      · simp only [hn, if_false] at h
+        split at h <;> cases h
+    · simp only [hbo, Bool.false_eq_true, if_false] at h
+      split at h <;> cases h
 
-   PENDING: `Encoding::encode` — no Lean encoder model yet; covered by the harness oracle
-   (bytes / encoding used / had_unmappables = streaming `Encoder`, borrow iff documented, aliasing). -/
+/-- and it does panic there: Big5, no validated prefix, `2 + 2 * len` overflows -/
+example : noReplCapacity .big5 (List.replicate 3 0x81) = some 8 := by decide +kernel
+example : variantMax .utf8NoRepl .big5 (none : Option Nat) (usizeMax / 2) = none := by decide +kernel
+
+/-- **the without-replacement form, total**: for lengths up to `(usize::MAX - 13) / 3` and every
+admissible stop policy it returns `None` / `Some`, `None` exactly when the stream has a malformed
+sequence, `Some` of the streaming text otherwise -/
+theorem without_replacement_total (v : Gen.Variant) (bytes : List Nat) (slack : Nat) (budget : Budget)
+    (hb : ∀ b ∈ bytes, b < 256) (hlen : 3 * bytes.length + 13 ≤ usizeMax)
+    (hadm : NoReplAdmissible v bytes slack budget) :
+    ∃ r, decodeWithoutBomHandlingAndWithoutReplacementCap v bytes budget = .ok (.ret r) ∧
+      (r = none ↔ streamErr v bytes = true) ∧ (∀ t b, r = some (t, b) → t = streamText v bytes) := by
+  cases h : decodeWithoutBomHandlingAndWithoutReplacementCap v bytes budget with
+  | panic => have := without_replacement_panic_length v bytes budget h; omega
+  | diverges =>
+    exfalso
+    unfold decodeWithoutBomHandlingAndWithoutReplacementCap at h
+    by_cases h8 : v = .utf8
+    · simp only [h8, if_true] at h
+      split at h <;> cases h
+    · simp only [h8, if_false] at h
+      by_cases hbo : isPotentiallyBorrowable v = true
+      · simp only [hbo, if_true] at h
+        by_cases hn : validUpToNoRepl v bytes = bytes.length
+        · simp only [hn, if_true] at h; cases h
+        · simp only [hn, if_false] at h
+          cases hc : noReplCapacity v bytes with
+          | none => rw [hc] at h; cases h
+          | some c => rw [hc] at h; simp only at h; split at h <;> cases h
+      · simp only [hbo, Bool.false_eq_true, if_false] at h
+        cases hc : noReplCapacity v bytes with
+        | none => rw [hc] at h; cases h
+        | some c => rw [hc] at h; simp only at h; split at h <;> cases h
+  | ok x =>
+    cases x with
+    | unreachable => exact absurd h (oneshot_no_unreachable v bytes slack budget hb hadm)
+    | ret r =>
+      have h' := noReplCap_ok v bytes budget _ h
+      obtain ⟨k1, k2⟩ := without_replacement_none_iff v bytes budget r h'
+      exact ⟨r, rfl, k1, fun t b hh => (k2 t b hh).1⟩
+
+/-- **termination of `decode_without_bom_handling` for EVERY admissible stop policy**, with a fuel
+bound: if every inner raw call of every round is admissible for the capacity in force
+(`DecodeAdmissible`: first `with_capacity(checked_min(next_power_of_two(valid_up_to +
+max_…_without_replacement(rem)), valid_up_to + max_utf8_buffer_length(rem)))`, then after an
+`OutputFull` round `reserve(max_utf8_buffer_length(remaining))` in the decoder's current state), the
+model with fuel `≥ 10 * len + 10` does not run out of fuel: the grow loop makes at most two rounds
+(C07: the reserved capacity is sufficient for the rest — "we should come here at most once"), and each
+round's replacement loop makes at most `10 * remaining + 10` inner calls (C08: a `Malformed` return
+consumed input or lowered the rank ≤ 9; holds for any stop policy). -/
+theorem decode_without_bom_handling_cap_returns (v : Gen.Variant) (bytes : List Nat) (fuel : Nat)
+    (slack : List Nat) (bs : List (List Budget)) (hb : ∀ b ∈ bytes, b < 256)
+    (hfuel : 10 * bytes.length + 10 ≤ fuel) (hadm : DecodeAdmissible v bytes fuel slack bs) :
+    decodeWithoutBomHandlingCap v bytes fuel slack bs ≠ .diverges := by
+  intro h
+  unfold decodeWithoutBomHandlingCap at h
+  unfold DecodeAdmissible at hadm
+  by_cases hbo : isPotentiallyBorrowable v = true
+  · simp only [hbo, if_true] at h hadm
+    by_cases hn : OneShot.validUpTo v bytes = bytes.length
+    · simp only [hn, if_true] at h; cases h
+    · simp only [hn, if_false] at h
+      cases hc : firstCapacity v (OneShot.validUpTo v bytes) (bytes.length - OneShot.validUpTo v bytes) with
+      | none => rw [hc] at h; cases h
+      | some c =>
+        rw [hc] at h
+        simp only at h
+        have hb' : ∀ b ∈ bytes.drop (OneShot.validUpTo v bytes), b < 256 :=
+          fun b hb' => hb b (List.mem_of_mem_drop hb')
+        have hl : (bytes.drop (OneShot.validUpTo v bytes)).length ≤ bytes.length := by
+          rw [List.length_drop]; omega
+        have := growLoopCap_returns v fuel fuel (famOfVariant v).init (bytes.drop (OneShot.validUpTo v bytes))
+          (c + slack.headD 0 - OneShot.validUpTo v bytes) slack.tail bs Reach.init hb' (by omega) (by omega)
+          (hadm c hc)
+        cases hg : growLoopCap v fuel fuel (famOfVariant v).init (bytes.drop (OneShot.validUpTo v bytes))
+          (c + slack.headD 0 - OneShot.validUpTo v bytes) slack.tail bs with
+        | diverges => exact this hg
+        | panic => rw [hg] at h; cases h
+        | ok p => rw [hg] at h; cases h
+  · simp only [hbo, Bool.false_eq_true, if_false] at h hadm
+    cases hc : firstCapacityNB v bytes.length with
+    | none => rw [hc] at h; cases h
+    | some c =>
+      rw [hc] at h
+      simp only at h
+      have := growLoopCap_returns v fuel fuel (famOfVariant v).init bytes (c + slack.headD 0) slack.tail bs
+        Reach.init hb (by omega) (by omega) (hadm c hc)
+      cases hg : growLoopCap v fuel fuel (famOfVariant v).init bytes (c + slack.headD 0) slack.tail bs with
+      | diverges => exact this hg
+      | panic => rw [hg] at h; cases h
+      | ok p => rw [hg] at h; cases h
+
+/-- the `.unwrap()`s of `decode_without_bom_handling` (`checked_min(…).unwrap()`, `needed.unwrap()`)
+panic only if `3 * len + 13 > usize::MAX`, whatever the stop policy -/
+theorem decode_without_bom_handling_panic_length (v : Gen.Variant) (bytes : List Nat) (fuel : Nat)
+    (slack : List Nat) (bs : List (List Budget)) (hb : ∀ b ∈ bytes, b < 256)
+    (h : decodeWithoutBomHandlingCap v bytes fuel slack bs = .panic) : usizeMax < 3 * bytes.length + 13 := by
+  apply Nat.lt_of_not_le
+  intro hlen
+  have hle := oneShot_validUpTo_le v bytes
+  unfold decodeWithoutBomHandlingCap at h
+  by_cases hbo : isPotentiallyBorrowable v = true
+  · simp only [hbo, if_true] at h
+    by_cases hn : OneShot.validUpTo v bytes = bytes.length
+    · simp only [hn, if_true] at h; cases h
+    · simp only [hn, if_false] at h
+      obtain ⟨c, hc⟩ := firstCapacity_some v (OneShot.validUpTo v bytes) (bytes.length - OneShot.validUpTo v bytes)
+        (by omega)
+      rw [hc] at h
+      simp only at h
+      have hb' : ∀ b ∈ bytes.drop (OneShot.validUpTo v bytes), b < 256 :=
+        fun b hb' => hb b (List.mem_of_mem_drop hb')
+      have := growLoopCap_no_panic v fuel fuel (famOfVariant v).init (bytes.drop (OneShot.validUpTo v bytes))
+        (c + slack.headD 0 - OneShot.validUpTo v bytes) slack.tail bs Reach.init hb'
+        (by rw [List.length_drop]; omega)
+      cases hg : growLoopCap v fuel fuel (famOfVariant v).init (bytes.drop (OneShot.validUpTo v bytes))
+        (c + slack.headD 0 - OneShot.validUpTo v bytes) slack.tail bs with
+      | panic => exact this hg
+      | diverges => rw [hg] at h; cases h
+      | ok p => rw [hg] at h; cases h
+  · simp only [hbo, Bool.false_eq_true, if_false] at h
+    obtain ⟨c, hc⟩ := firstCapacityNB_some v bytes.length hlen
+    rw [hc] at h
+    simp only at h
+    have := growLoopCap_no_panic v fuel fuel (famOfVariant v).init bytes (c + slack.headD 0) slack.tail bs
+      Reach.init hb hlen
+    cases hg : growLoopCap v fuel fuel (famOfVariant v).init bytes (c + slack.headD 0) slack.tail bs with
+    | panic => exact this hg
+    | diverges => rw [hg] at h; cases h
+    | ok p => rw [hg] at h; cases h
+
+/-- **(a) in total form for every admissible policy**: the capacity-aware model of
+`decode_without_bom_handling` returns, and what it returns is the streaming result -/
+theorem decode_without_bom_handling_cap_total (v : Gen.Variant) (bytes : List Nat) (fuel : Nat)
+    (slack : List Nat) (bs : List (List Budget)) (hb : ∀ b ∈ bytes, b < 256)
+    (hlen : 3 * bytes.length + 13 ≤ usizeMax) (hfuel : 10 * bytes.length + 10 ≤ fuel)
+    (hadm : DecodeAdmissible v bytes fuel slack bs) :
+    ∃ r, decodeWithoutBomHandlingCap v bytes fuel slack bs = .ok r ∧
+      r.text = streamText v bytes ∧ r.hadErrors = streamErr v bytes := by
+  cases h : decodeWithoutBomHandlingCap v bytes fuel slack bs with
+  | diverges => exact absurd h (decode_without_bom_handling_cap_returns v bytes fuel slack bs hb hfuel hadm)
+  | panic => have := decode_without_bom_handling_panic_length v bytes fuel slack bs hb h; omega
+  | ok r =>
+    exact ⟨r, rfl, decode_without_bom_handling_eq_stream v bytes fuel bs r
+      (decodeWithoutBomHandlingCap_ok v bytes fuel slack bs r h)⟩
+
+/-- the same for `decode` (BOM sniffing first) and `decode_with_bom_removal`: admissibility is that of
+the `decode_without_bom_handling` call they end in -/
+theorem decode_with_bom_removal_cap_total (v : Gen.Variant) (bytes : List Nat) (fuel : Nat)
+    (slack : List Nat) (bs : List (List Budget)) (hb : ∀ b ∈ bytes, b < 256)
+    (hlen : 3 * bytes.length + 13 ≤ usizeMax) (hfuel : 10 * bytes.length + 10 ≤ fuel)
+    (hadm : DecodeAdmissible v (withoutOwnBom v bytes) fuel slack bs) :
+    ∃ r, decodeWithBomRemovalCap v bytes fuel slack bs = .ok r ∧
+      decodeWithBomRemoval v bytes fuel bs = some r := by
+  have hl := withoutOwnBom_length_le v bytes
+  have hb' : ∀ b ∈ withoutOwnBom v bytes, b < 256 := by
+    intro b hm
+    unfold withoutOwnBom at hm
+    repeat' split at hm
+    all_goals first | exact hb b (List.mem_of_mem_drop hm) | exact hb b hm
+  obtain ⟨r, hr, _⟩ := decode_without_bom_handling_cap_total v (withoutOwnBom v bytes) fuel slack bs hb'
+    (by omega) (by omega) hadm
+  exact ⟨r, hr, decodeWithoutBomHandlingCap_ok v _ fuel slack bs r hr⟩
+
+theorem decode_cap_total (v : Gen.Variant) (bytes : List Nat) (fuel : Nat)
+    (slack : List Nat) (bs : List (List Budget)) (hb : ∀ b ∈ bytes, b < 256)
+    (hlen : 3 * bytes.length + 13 ≤ usizeMax) (hfuel : 10 * bytes.length + 10 ≤ fuel)
+    (hadm : match forBom bytes with
+      | some (u, n) => DecodeAdmissible (variantOfUsed v u) (bytes.drop n) fuel slack bs
+      | none => DecodeAdmissible v bytes fuel slack bs) :
+    ∃ r u, decodeCap v bytes fuel slack bs = .ok (r, u) ∧ decode v bytes fuel bs = some (r, u) := by
+  unfold decodeCap decode
+  cases hf : forBom bytes with
+  | none =>
+    rw [hf] at hadm
+    simp only at hadm ⊢
+    obtain ⟨r, hr, _⟩ := decode_without_bom_handling_cap_total v bytes fuel slack bs hb hlen hfuel hadm
+    refine ⟨r, .nominal, by rw [hr]; rfl, ?_⟩
+    rw [decodeWithoutBomHandlingCap_ok v _ fuel slack bs r hr]; rfl
+  | some p =>
+    obtain ⟨u, n⟩ := p
+    rw [hf] at hadm
+    simp only at hadm ⊢
+    have hl : (bytes.drop n).length ≤ bytes.length := by rw [List.length_drop]; omega
+    obtain ⟨r, hr, _⟩ := decode_without_bom_handling_cap_total (variantOfUsed v u) (bytes.drop n) fuel slack bs
+      (fun b hm => hb b (List.mem_of_mem_drop hm)) (by omega) (by omega) hadm
+    refine ⟨r, u, by rw [hr]; rfl, ?_⟩
+    rw [decodeWithoutBomHandlingCap_ok _ _ fuel slack bs r hr]; rfl
+
+/-! ### (f) `Encoding::encode`
+
+The reference is `erefHtml (efamOfVariant vo) init text` — by C03 `encode_conforms` the output of the
+Standard's "encode" (error mode html) of the output encoding on `text`, and by C04
+`enc_history_eq_ref` + `erefHtml_eq` what ANY protocol-following streaming history of the `Encoder`
+yields when every `Unmappable(c)` is written as `&#c;`. -/
+
+open EncodingRs.Lemmas.OneShotEnc EncodingRs.Lemmas.EncCore
+
+/-- the bytes of the `&str` argument: the UTF-8 form of a text of scalar values; `Utf8Source` reads
+the text back (C03 `utf8_source_reads`) -/
+theorem chars_utf8 (text : List Nat) (ht : ∀ c ∈ text, c < 0x110000) :
+    chars false (Spec.Conv.utf8EncodeAll text) = text := by
+  unfold chars
+  show (items8 (Spec.Conv.utf8EncodeAll text)).map Prod.fst = text
+  rw [Thm.C03.utf8_source_reads text ht, List.map_map]
+  simp [Function.comp_def]
+
+/-- the documented borrow condition of `encode`, on the variant of the output encoding -/
+def EncBorrowCond (vo : Gen.Variant) (bytes : List Nat) : Prop :=
+  vo = .utf8 ∨
+  (vo = .iso2022Jp ∧ ∀ b ∈ bytes, b < 0x80 ∧ b ≠ 0x0E ∧ b ≠ 0x0F ∧ b ≠ 0x1B) ∨
+  (vo ≠ .utf8 ∧ vo ≠ .iso2022Jp ∧ ∀ b ∈ bytes, b < 0x80)
+
+theorem passPred_all_iff (vo : Gen.Variant) (h8 : vo ≠ .utf8) (bytes : List Nat) :
+    (∀ b ∈ bytes, passPred vo b = true) ↔ EncBorrowCond vo bytes := by
+  unfold EncBorrowCond passPred
+  by_cases hi : vo = .iso2022Jp
+  · simp [hi]
+  · simp [hi, h8]
+
+/-- **C11 (f), bytes and flag**: for every output-encoding variant, every text, every stop policy of
+every inner raw call, every slack of the allocator and every number of `OutputFull` / `reserve_exact`
+rounds: whenever the model of `encode` returns, the bytes are the reference (`erefHtml` = the Standard's
+html-mode encode, C03) of the WHOLE text and `had_unmappables` says whether the reference run of the raw
+API reports an unmappable character -/
+theorem encodeV_eq_stream (vo : Gen.Variant) (text bytes : List Nat) (fuel : Nat) (slack : List Nat)
+    (bs : List (List Budget)) (r : EncRes) (ht : ∀ c ∈ text, c < 0x110000)
+    (hbytes : bytes = Spec.Conv.utf8EncodeAll text) (h : encodeV vo bytes fuel slack bs = .ok r) :
+    r.bytes = Lemmas.ConformEnc.erefHtml (efamOfVariant vo) (efamOfVariant vo).init text ∧
+    r.hadUnmappables = anyUnmap (eref (efamOfVariant vo) (efamOfVariant vo).init text) := by
+  have hchars : chars false bytes = text := by rw [hbytes]; exact chars_utf8 text ht
+  rw [erefHtml_eq]
+  unfold encodeV at h
+  by_cases h8 : vo = .utf8
+  · simp only [h8, if_true, Outcome.ok.injEq] at h
+    subst h
+    rw [h8]
+    obtain ⟨u1, u2⟩ := utf8_eref text
+    exact ⟨by rw [hbytes]; exact u1.symm, u2.symm⟩
+  · simp only [h8, if_false] at h
+    have hsplit := chars_ascii_prefix (passPred vo) (passPred_ascii vo) bytes
+    rw [← validUpToNoRepl_upTo, hchars] at hsplit
+    have hpre : ∀ c ∈ bytes.take (validUpToNoRepl vo bytes), passPred vo c = true := by
+      rw [validUpToNoRepl_upTo]; exact upTo_take_all _ _
+    have href := eref_pass vo (bytes.take (validUpToNoRepl vo bytes))
+      (chars false (bytes.drop (validUpToNoRepl vo bytes))) hpre
+    rw [← hsplit] at href
+    by_cases hn : validUpToNoRepl vo bytes = bytes.length
+    · simp only [hn, if_true, Outcome.ok.injEq] at h
+      subst h
+      have hnil : eref (efamOfVariant vo) (efamOfVariant vo).init (chars false (bytes.drop bytes.length)) = [] := by
+        rw [List.drop_length]; unfold chars; rw [Lemmas.ConformEnc.itemsFn_nil]; simp [eref, init_eof_nil]
+      rw [hn, hnil, List.take_length, List.append_nil] at href
+      rw [href, htmlE_bytes, anyUnmap_bytes]
+      exact ⟨rfl, rfl⟩
+    · simp only [hn, if_false] at h
+      cases hc : Gen.MaxLen.U.addO (validUpToNoRepl vo bytes)
+          (encMaxIfNoUnmappables false vo (bytes.length - validUpToNoRepl vo bytes)) with
+      | none => rw [hc] at h; cases h
+      | some c0 =>
+        rw [hc] at h
+        simp only at h
+        obtain ⟨p, hp, hf⟩ := map_ok _ _ _ h
+        obtain ⟨o, e⟩ := p
+        obtain ⟨j1, j2⟩ := encodeLoop_sound vo fuel fuel _ _ _ _ _ _ o e hp
+        simp only at hf
+        subst hf
+        simp only
+        rw [href, htmlE_append, htmlE_bytes, anyUnmap_append, anyUnmap_bytes, j1, j2]
+        exact ⟨rfl, by simp⟩
+
+/-- `had_unmappables` in words: some `Unmappable` report occurs in the reference run -/
+theorem anyUnmap_iff (l : List EEv) : anyUnmap l = true ↔ ∃ u, EEv.unmap u ∈ l := by
+  induction l with
+  | nil => simp [anyUnmap]
+  | cons a t ih =>
+    cases a with
+    | byte b => simp [anyUnmap, ih]
+    | unmap u => simp only [anyUnmap, true_iff]; exact ⟨u, List.mem_cons_self ..⟩
+
+/-- **C11 (f), borrowing**: `Cow::Borrowed` iff the documented condition (output encoding UTF-8:
+always; ISO-2022-JP: every byte ASCII other than 0E / 0F / 1B; otherwise: every byte ASCII); a borrowed
+result is the input itself with `had_unmappables = false`.  No hypothesis on the input. -/
+theorem encodeV_borrow_iff (vo : Gen.Variant) (bytes : List Nat) (fuel : Nat) (slack : List Nat)
+    (bs : List (List Budget)) (r : EncRes) (h : encodeV vo bytes fuel slack bs = .ok r) :
+    (r.borrowed = true ↔ EncBorrowCond vo bytes) ∧
+    (r.borrowed = true → r.bytes = bytes ∧ r.hadUnmappables = false) := by
+  unfold encodeV at h
+  by_cases h8 : vo = .utf8
+  · simp only [h8, if_true, Outcome.ok.injEq] at h
+    subst h
+    exact ⟨⟨fun _ => Or.inl h8, fun _ => rfl⟩, fun _ => ⟨rfl, rfl⟩⟩
+  · simp only [h8, if_false] at h
+    by_cases hn : validUpToNoRepl vo bytes = bytes.length
+    · simp only [hn, if_true, Outcome.ok.injEq] at h
+      subst h
+      refine ⟨⟨fun _ => ?_, fun _ => rfl⟩, fun _ => ⟨rfl, rfl⟩⟩
+      rw [validUpToNoRepl_upTo, upTo_eq_length_iff] at hn
+      exact (passPred_all_iff vo h8 bytes).mp hn
+    · simp only [hn, if_false] at h
+      cases hc : Gen.MaxLen.U.addO (validUpToNoRepl vo bytes)
+          (encMaxIfNoUnmappables false vo (bytes.length - validUpToNoRepl vo bytes)) with
+      | none => rw [hc] at h; cases h
+      | some c0 =>
+        rw [hc] at h
+        simp only at h
+        obtain ⟨p, _, hf⟩ := map_ok _ _ _ h
+        obtain ⟨o, e⟩ := p
+        simp only at hf
+        subst hf
+        refine ⟨⟨fun hh => (by cases hh), fun hcond => ?_⟩, fun hh => (by cases hh)⟩
+        exfalso
+        apply hn
+        rw [validUpToNoRepl_upTo, upTo_eq_length_iff]
+        exact (passPred_all_iff vo h8 bytes).mpr hcond
+
+/-- **C11 (f), encoding used**: `encode` reports `output_encoding()` and encodes with the encoder
+`output_encoding().new_encoder()` constructs (C20 `newEncoder_eq`); the model's variant test
+`vo = .utf8` is the Rust's `output_encoding == UTF_8` -/
+theorem encode_used (i : Nat) (bytes : List Nat) (fuel : Nat) (slack : List Nat) (bs : List (List Budget))
+    (r : EncRes) (u : Nat) (h : OneShot.encode i bytes fuel slack bs = .ok (r, u)) :
+    u = Meta.outputEncoding i ∧ encodeV (Meta.variantAt (Meta.outputEncoding i)) bytes fuel slack bs = .ok r := by
+  unfold OneShot.encode at h
+  obtain ⟨a, ha, hf⟩ := map_ok _ _ _ h
+  simp only [Prod.mk.injEq] at hf
+  exact ⟨hf.2.symm, by rw [ha, hf.1]⟩
+
+theorem outputEncoding_lt (i : Nat) (hi : i < 40) : Meta.outputEncoding i < 40 := by
+  unfold Meta.outputEncoding
+  split
+  · decide
+  · exact hi
+
+theorem encode_encoder (i : Nat) (hi : i < 40) :
+    Meta.newEncoder (Meta.outputEncoding i) = some (efamOfVariant (Meta.variantAt (Meta.outputEncoding i))) :=
+  Thm.C20.newEncoder_eq _ (outputEncoding_lt i hi)
+
+theorem outputEncoding_utf8_iff :
+    (List.range 40).all (fun i =>
+      decide (Meta.variantAt (Meta.outputEncoding i) = .utf8 ↔ Meta.outputEncoding i = Gen.utf8Idx)) = true := by
+  decide +kernel
+
+/-- **C11 (f), the Standard**: for each of the 40 encodings `e` that is its own output encoding
+(all but UTF-16BE/LE/replacement, whose output encoding is UTF-8), the bytes `encode` returns are the
+output of the Standard's "encode" of that encoding, error mode html, on the text -/
+theorem encodeV_conforms (e : Gen.EncodingInit) (he : e ∈ Gen.encodings) (text bytes : List Nat) (fuel : Nat)
+    (slack : List Nat) (bs : List (List Budget)) (r : EncRes) (ht : ∀ c ∈ text, c < 0x110000)
+    (hbytes : bytes = Spec.Conv.utf8EncodeAll text) (h : encodeV e.variant bytes fuel slack bs = .ok r) :
+    ∃ E : Spec.Encode.Encoder, Spec.Encode.encoderOfName (Spec.Encode.outputEncodingName e.name) = some E ∧
+      Spec.Encode.Runs E .html E.init text (r.bytes.map Spec.Encode.Ev.byte) := by
+  obtain ⟨E, hE, _, hhtml⟩ := Thm.C03.encode_conforms e he text ht
+  exact ⟨E, hE, by rw [(encodeV_eq_stream e.variant text bytes fuel slack bs r ht hbytes h).1]; exact hhtml⟩
+
+/-- against the streaming `Encoder` directly: **any** protocol-following history `ev` of raw encoder
+calls over the text (C04 `EProto`: any chunking at character boundaries, any capacities, either source
+form) yields, with `&#c;` written for each `Unmappable(c)`, the bytes `encode` returns, and reports an
+unmappable character iff `encode` says `had_unmappables` -/
+theorem encodeV_eq_any_history (vo : Gen.Variant) (text bytes : List Nat) (fuel : Nat) (slack : List Nat)
+    (bs : List (List Budget)) (r : EncRes) (ht : ∀ c ∈ text, c < 0x110000)
+    (hbytes : bytes = Spec.Conv.utf8EncodeAll text) (h : encodeV vo bytes fuel slack bs = .ok r)
+    (ev : List EEv) (hist : Thm.C04.EProto (efamOfVariant vo) (efamOfVariant vo).init text ev) :
+    r.bytes = htmlE ev ∧ (r.hadUnmappables = true ↔ ∃ u, EEv.unmap u ∈ ev) := by
+  obtain ⟨k1, k2⟩ := encodeV_eq_stream vo text bytes fuel slack bs r ht hbytes h
+  rw [Thm.C04.enc_history_eq_ref _ (Thm.C04.variant_elaws vo) _ _ _ hist]
+  exact ⟨by rw [k1, erefHtml_eq], by rw [k2, anyUnmap_iff]⟩
+
+/-! ### non-vacuity of (e) and (f) (kernel evaluation; admissibility through the executable checkers
+`Lemmas.OneShotCap.decodeAdmissibleB` / `noReplAdmissibleB`, proved sound) -/
+
+section NonVacuity
+
+/-- EUC-KR, `41 FF FF FF FF FF FF`: one validated byte, six malformed bytes.  The first allocation is
+`min(next_power_of_two(1 + 11), 1 + 18) = 16` bytes, 15 of them spare; six U+FFFD need 18. -/
+def demoInput : List Nat := [0x41, 0xFF, 0xFF, 0xFF, 0xFF, 0xFF, 0xFF]
+/-- five inner calls run to their `Malformed`, the sixth finds no room and stops; second round unstopped -/
+def demoPolicy : List (List Budget) := [[.unlimited, .unlimited, .unlimited, .unlimited, .unlimited, .full 0], []]
+
+example : firstCapacity .eucKr 1 6 = some 16 := by decide +kernel
+/-- this policy, with an `OutputFull` round and one `reserve`, is admissible for the computed capacities … -/
+example : DecodeAdmissible .eucKr demoInput 80 [] demoPolicy :=
+  decodeAdmissibleB_sound _ _ _ _ _ (by decide +kernel)
+/-- … the model returns the streaming result (as `decode_without_bom_handling_cap_total` says) … -/
+example : decodeWithoutBomHandlingCap .eucKr demoInput 80 [] demoPolicy
+    = .ok ⟨[0x41, 0xFFFD, 0xFFFD, 0xFFFD, 0xFFFD, 0xFFFD, 0xFFFD], true, false⟩ := by decide +kernel
+/-- … whereas "never stop" is NOT admissible for an exact allocation of 16 bytes (18 would be written
+into 15), and is admissible when the allocator grants 3 bytes more -/
+example : decodeAdmissibleB .eucKr demoInput 80 [] [] = false ∧ decodeAdmissibleB .eucKr demoInput 80 [3] [] = true := by
+  decide +kernel
+
+/-- the without-replacement form, Shift_JIS `41 B1` (half-width katakana): capacity `1 + 3 * 1 = 4`; not
+stopping is admissible and yields U+FF71 (3 bytes into the 3 spare bytes); stopping before the first
+byte (the only way into `unreachable!()`) is not admissible for 3 spare bytes -/
+example : noReplCapacity .shiftJis [0x41, 0xB1] = some 4 := by decide +kernel
+example : NoReplAdmissible .shiftJis [0x41, 0xB1] 0 .unlimited :=
+  (noReplAdmissibleB_iff _ _ _ _).mp (by decide +kernel)
+example : decodeWithoutBomHandlingAndWithoutReplacementCap .shiftJis [0x41, 0xB1] .unlimited
+    = .ok (.ret (some ([0x41, 0xFF71], false))) := by decide +kernel
+example : decodeWithoutBomHandlingAndWithoutReplacementCap .shiftJis [0x41, 0xB1] (.full 0) = .ok .unreachable ∧
+    ¬ NoReplAdmissible .shiftJis [0x41, 0xB1] 0 (.full 0) := by
+  refine ⟨by decide +kernel, fun h => ?_⟩
+  have := (noReplAdmissibleB_iff _ _ _ _).mpr h
+  revert this
+  decide +kernel
+
+/-- `encode`: "Aé" to EUC-KR (unmappable, numeric character reference, owned), to ISO-2022-JP "Aあ"
+(escape sequences, end-of-stream escape), borrows, UTF-16LE encodes as UTF-8 -/
+example : encodeV .eucKr [0x41, 0xC3, 0xA9] 40 [] [] = .ok ⟨[0x41, 0x26, 0x23, 0x32, 0x33, 0x33, 0x3B], true, false⟩ := by
+  decide +kernel
+example : encodeV .iso2022Jp [0x41, 0xE3, 0x81, 0x82] 40 [] []
+    = .ok ⟨[0x41, 0x1B, 0x24, 0x42, 0x24, 0x22, 0x1B, 0x28, 0x42], false, false⟩ := by decide +kernel
+example : encodeV .iso2022Jp [0x41, 0x42] 40 [] [] = .ok ⟨[0x41, 0x42], false, true⟩ := by decide +kernel
+example : encodeV .iso2022Jp [0x41, 0x1B] 40 [] []
+    = .ok ⟨[0x41, 0x26, 0x23, 0x36, 0x35, 0x35, 0x33, 0x33, 0x3B], true, false⟩ := by decide +kernel
+example : OneShot.encode 23 [0x41, 0xC3, 0xA9] 40 [] [] = .ok (⟨[0x41, 0xC3, 0xA9], false, true⟩, Gen.utf8Idx) ∧
+    Meta.nameAt 23 = "UTF-16LE" := by decide +kernel
+
+end NonVacuity
+
+/- Status of the items that were PENDING here:
+
+   * `oneshot_no_unreachable`: PROVED at full strength (section (e)), with `without_replacement_total` and
+     the explicit length precondition `3 * len + 13 ≤ usize::MAX` for the `.unwrap()` panics
+     (`without_replacement_panic_length`).
+   * termination of the two loops of `decode_without_bom_handling` for EVERY admissible stop policy: PROVED
+     (`decode_without_bom_handling_cap_returns`, fuel bound `10 * len + 10`; at most two rounds of the grow
+     loop: `Lemmas.OneShotCap.growLoopCap_returns` / `growLoopCap_two_rounds`; the replacement loop
+     terminates for every stop policy whatsoever: `replLoop_terminates_any`), in total form
+     `decode_without_bom_handling_cap_total` / `decode_cap_total` / `decode_with_bom_removal_cap_total`.
+   * `Encoding::encode`: modelled (`Model.OneShot.encode` / `encodeV` / `encodeLoop`, capacity arithmetic
+     included) and PROVED equal to the reference for every stop policy under which the model returns
+     (section (f)).
+
+   Still partial:
+
+   * `encode_terminates_partial` (not a theorem): that the loop of `encode` returns (does not exhaust the
+     fuel of the model) is NOT proved for any policy; `encodeV_eq_stream` etc. are partial-correctness
+     statements.  The argument would be: an `OutputFull` round of `encode_from_utf8` either wrote a numeric
+     character reference (consumed at least one character) or was entered with fewer than `NCR_EXTRA` spare
+     bytes and is followed by a `reserve_exact` that leaves at least `NCR_EXTRA + max…(rest)`; the driver
+     runs the model with fuel `10 * len + 16` on every generated input and would print `diverges`.
+   * the `.unwrap()` / `next_power_of_two` overflow behaviour of `encode` is modelled (`panic`) but no
+     length precondition excluding it is proved (the encoder formulas would need a bound like
+     `variantQuery_le`).
+   * `String::with_capacity` / `reserve` / `Vec::reserve_exact` are modelled by their documented contract
+     ("at least"), their own panics (capacity above `isize::MAX`, allocation failure) are outside the model. -/
 
 end EncodingRs.Thm.C11
